@@ -510,6 +510,7 @@ def write_replay(machine, case, viol, tag):
     path = os.path.join(REPLAY_DIR, "%s-%s.json" % (machine.pid, tag))
     with open(path, "w") as fd:
         json.dump({"property": machine.pid, "violation": viol, "case": case,
+                   "hashseed": os.environ.get("PYTHONHASHSEED", "0"),
                    "how": "./check %s --replay %s" % (machine.pid, path)},
                   fd, indent=1, sort_keys=True)
     return path
@@ -544,7 +545,6 @@ def confirm_in_fresh_process(machine, path):
     cmd = [sys.executable, os.path.join(VERIF_DIR, "check"), machine.pid,
            "--replay", path, "--quiet"]
     env = dict(os.environ)
-    env["PYTHONHASHSEED"] = "0"
     p = subprocess.run(cmd, env=env, stdout=subprocess.PIPE, stderr=subprocess.STDOUT)
     return p.returncode == 1, p.stdout.decode(errors="replace")
 
